@@ -179,11 +179,20 @@ func (p *Proxy) forwardRpc(source string, rpc *goatorepo.Rpc) {
 	}
 }
 
+// reportError tells the forwarding loop that this peer has failed. Once the
+// proxy's context is done nobody is listening any more, so don't wait for it.
+func (c *proxyClient) reportError(ctx context.Context, err error) {
+	select {
+	case c.toServer <- command{id: c.id, err: err}:
+	case <-ctx.Done():
+	}
+}
+
 func (c *proxyClient) readLoop(ctx context.Context) error {
 	for {
 		rpc, err := c.conn.Read(ctx)
 		if err != nil {
-			c.toServer <- command{id: c.id, err: err}
+			c.reportError(ctx, err)
 			return errors.Wrap(err, "failed to read from connection")
 		}
 
@@ -202,7 +211,7 @@ func (c *proxyClient) writeLoop(ctx context.Context) error {
 
 			err := c.conn.Write(ctx, rpc)
 			if err != nil {
-				c.toServer <- command{id: c.id, err: err}
+				c.reportError(ctx, err)
 				return errors.Wrap(err, "failed to write to connection")
 			}
 		case <-ctx.Done():
@@ -223,7 +232,7 @@ func (c *proxyClient) connect(ctx context.Context, newConnection NewConnection) 
 
 	c.conn, err = newConnection(c.id)
 	if err != nil {
-		c.toServer <- command{id: c.id, err: err}
+		c.reportError(ctx, err)
 		return
 	}
 
